@@ -1,7 +1,7 @@
 (* C07 - The traced schema does not depend on sample order or repetition.
    Model: Trace/Tracer.v (trace, to_field, from_samples), compared with the crate on every run
    (exhaustive leaf pairs x 16 option sets, triples, nested shapes). *)
-From Verif Require Import Tracer Coerce Coerce_proofs CoerceTable CoerceTable_proofs TracerTablesSpec.
+From Verif Require Import Tracer Coerce Coerce_proofs CoerceTable CoerceTable_proofs TracerTablesSpec Null_proofs.
 From Coq Require Import Permutation.
 
 (* Full-strength statement (kept visible): evaluated on the implementation on every run by the
@@ -65,6 +65,34 @@ Theorem C07_coerce_arms_match_model : forall cn ts lg prev nl curr,
   CoerceTable.first_match TracerTables.coerce_arms cn ts lg prev nl curr = Some (coerce_core cn ts lg prev nl curr).
 Proof. exact CoerceTable_proofs.coerce_table_is_model. Qed.
 
+(* ---- nested shapes: nullability is orthogonal to everything else a tracer records ----
+   For samples of ANY shape (records, sequences, tuples, maps, enum variants, at any nesting) and any tracer state: marking a
+   position nullable commutes with tracing a sample into it (trace_mark).  Hence: a null sample anywhere in a collection makes
+   the position nullable and changes nothing else - neither success nor any other part of the result - so its place in the
+   order is irrelevant; Some(x) is x plus a null; and the same holds for a null among the elements of a sequence at any depth *)
+Theorem C07_null_commutes_with_any_sample : forall o v d t, trace o d v (mark_nullable t) = omark (trace o d v t).
+Proof. exact trace_mark. Qed.
+
+Theorem C07_null_position_irrelevant : forall o d l1 l2 l1' l2' t, l1 ++ l2 = l1' ++ l2' ->
+  trace_seq' o d (l1 ++ VNone :: l2) (Ok t) = trace_seq' o d (l1' ++ VNone :: l2') (Ok t).
+Proof. exact null_positions_agree. Qed.
+
+Theorem C07_null_only_marks : forall o d l1 l2 t,
+  trace_seq' o d (l1 ++ VNone :: l2) (Ok t) = omark (trace_seq' o d (l1 ++ l2) (Ok t)).
+Proof. exact null_anywhere. Qed.
+
+Theorem C07_some_is_null_plus_value : forall o d v t, trace o d (VSome v) t = omark (trace o d v t).
+Proof. exact some_is_null_plus_value. Qed.
+
+Theorem C07_null_element_position : forall o d l1 l2 l1' l2' t, l1 ++ l2 = l1' ++ l2' ->
+  trace o d (VSeq (l1 ++ VNone :: l2)) t = trace o d (VSeq (l1' ++ VNone :: l2')) t.
+Proof. exact null_element_position. Qed.
+
+(* trace_seq' at depth 0 from the unknown root is the tracing of a whole collection *)
+Example C07_trace_all_is_fold : forall o samples, trace_all o samples = trace_seq' o 0 samples (Ok (TUnknown false)).
+Proof. reflexivity. Qed.
+
 Print Assumptions C07_leaf_perm_partial.
 Print Assumptions C07_leaf_success_order_free_partial.
 Print Assumptions C07_coerce_arms_match_model.
+Print Assumptions C07_null_commutes_with_any_sample.
